@@ -82,13 +82,23 @@ class Aff:
 
 
 def atom_name(a):
+    """readable name of an atom for reports"""
+    def short(x):
+        if isinstance(x, str):
+            return x
+        if isinstance(x, int):
+            return '#%d' % x
+        if isinstance(x, tuple) and len(x) == 2 and isinstance(x[0], str) and isinstance(x[1], int):
+            return '%s#%d' % x
+        import zlib
+        return '@%03d' % (zlib.crc32(repr(x).encode()) % 1000)
     if isinstance(a, tuple) and a and isinstance(a[0], str):
         if a[0] == 'len' and len(a) == 2:
-            return 'len(%s)' % (a[1] if isinstance(a[1], str) else atom_name(a[1]))
-        return '%s(%s)' % (a[0], ','.join(x if isinstance(x, str) else atom_name(x) for x in a[1:]))
-    if isinstance(a, tuple):
-        return '(' + ','.join(x if isinstance(x, str) else atom_name(x) for x in a) + ')'
-    return str(a)
+            return 'len(%s)' % short(a[1])
+        if len(a) == 2:
+            return '%s(%s)' % (a[0], short(a[1]))
+        return '%s(%s)' % (a[0], ','.join(short(x) for x in a[1:]))
+    return short(a)
 
 
 def _aff(x):
